@@ -2,8 +2,8 @@ CONSTANTS
   NZooms = 1
   IsBed = FALSE
   HeaderFirst = FALSE
-  Stale = FALSE
-  SkipBlank = FALSE
+  Stale = TRUE
+  SkipBlank = TRUE
 SPECIFICATION Spec
-INVARIANTS PrefixSafe Complete
+INVARIANTS StaleSafe
 CHECK_DEADLOCK FALSE
